@@ -168,7 +168,110 @@ def r4_every_syntax_quoted_symbol_is_resolved(ctx):
     ctx.ob("C09.R4", f"{RT}::resolve_alias::interned/referred -> the Var's namespace, otherwise the current namespace", RT, ra.lineno, ok, "" if ok else "unqualified symbols are not qualified with the namespace of the Var they denote")
 
 
+ANA = "src/basilisp/lang/compiler/analyzer.py"
+
+
+@rule("C09.R6", floor=1)
+def r6_inline_templates_are_resolved_where_they_are_written(ctx):
+    """An automatically generated :inline function is the function body turned into a syntax-quote
+    template that is expanded at every call site.  Like any template it must have its free symbols
+    resolved in the namespace where it was written (the syntax-quote machinery does that when it is
+    given the namespace resolver); otherwise `+` in the body of basilisp.core/inc means whatever
+    `+` means at the call site."""
+    fn = ctx.fn(ANA, "_inline_fn_ast")
+    calls = [c for c in P.calls(fn) if P.un(c.func).endswith("syntax_quote")]
+    if not calls:
+        raise AnalysisError("anchor vanished: _inline_fn_ast no longer builds its template with reader.syntax_quote")
+    for c in calls:
+        ok = any(k.arg == "resolver" and not (isinstance(k.value, ast.Constant) and k.value.value is None) for k in c.keywords) or len(c.args) >= 2
+        ctx.ob("C09.R6", f"{ANA}::_inline_fn_ast::{P.un(c)[:60]} resolves free symbols in the defining namespace", ANA, c.lineno, ok,
+               "" if ok else "the inline template is syntax-quoted without a resolver: its free symbols stay unqualified and are looked up in the caller's namespace",
+               witness="in a fresh namespace: (def + -) (inc 5) => 4")
+
+
+def _children_traversals(method, group_text):
+    """Forms of `method` that walk the child group `group_text` and expand nested patterns there
+    (mention destructure-binding): threaded pipelines starting at the group, or calls taking it."""
+    out = []
+    for f in L.walk(method):
+        if not isinstance(f, L.List) or not f.items:
+            continue
+        h = L.head(f)
+        src = None
+        if h in ("->>", "->") and len(f.items) > 2:
+            src = f.items[1]
+        elif h in ("map", "mapcat", "map-indexed", "keep", "for") and len(f.items) >= 3:
+            src = f.items[-1]
+        if src is not None and src.text() == group_text and any(L.is_sym(x, "destructure-binding") for x in L.walk(f)):
+            # count the outermost form only
+            if not any(a in out for a in L.ancestors(f)):
+                out.append(f)
+    return out
+
+
+@rule("C09.R5", floor=5)
+def r5_every_subpattern_expanded_once_in_place(ctx):
+    """A binding vector is a sequence of let bindings, so later names shadow earlier ones.  The
+    expansion must therefore (a) pass every sub-pattern position -- sequential child, rest, map
+    child -- through destructure-def (a raw pattern used as a binding name does not compile),
+    (b) expand each nested pattern exactly once, and for vectors directly after the name bound to
+    its value (a second expansion at the end re-binds its names after, and over, the later siblings),
+    and (c) treat the last keyword argument as a trailing map only when it is unpaired."""
+    vdef = _method(ctx, "destructure-def", "vector")
+    rest_forms = [v for f in L.walk(vdef) if isinstance(f, L.Map) for k, v in f.pairs() if k.text() == ":rest"]
+    if not rest_forms:
+        raise AnalysisError("anchor vanished: destructure-def :vector no longer records :rest")
+    ok = any(L.is_sym(x, "destructure-def") for x in L.walk(rest_forms[0]))
+    ctx.ob("C09.R5", f"{CORE}::destructure-def :vector::the rest pattern goes through destructure-def", CORE, rest_forms[0].line, ok,
+           "" if ok else "the form after & is used as a binding name as written: a nested pattern there ([a & [b c]], [a & {:keys [k]}]) does not macroexpand",
+           witness="(let [[a & [b c]] [1 2 3]] [a b c])")
+    ch = [v for f in L.walk(vdef) if isinstance(f, L.Map) for k, v in f.pairs() if k.text() == ":children"]
+    ok = bool(ch) and any(L.is_sym(x, "destructure-def") for x in L.walk(ch[0]))
+    ctx.ob("C09.R5", f"{CORE}::destructure-def :vector::sequential children go through destructure-def", CORE, vdef.line, ok, "" if ok else "sequential children are not normalised")
+    mdef = _method(ctx, "destructure-def", "map")
+    ok = any(L.head(x) == "destructure-def" for x in L.walk(mdef))
+    ctx.ob("C09.R5", f"{CORE}::destructure-def :map::map children go through destructure-def", CORE, mdef.line, ok, "" if ok else "map children are not normalised")
+
+    vb = _method(ctx, "destructure-binding", "vector")
+    tr = _children_traversals(vb, "(:children ddef)")
+    ok = len(tr) == 1
+    ctx.ob("C09.R5", f"{CORE}::destructure-binding :vector::nested patterns expanded once ({len(tr)} traversal(s) of the children expand them)", CORE, vb.line, ok,
+           "" if ok else "the children are walked " + str(len(tr)) + " times with destructure-binding: the names of a nested pattern are bound again after the later siblings and shadow them",
+           witness="(let [[[a] a] [[1] 2]] a) must be 2")
+    inplace = False
+    for t in tr[:1]:
+        for f in L.walk(t):
+            if L.head(f) == "concat" and any(isinstance(x, L.Vec) and x.items and L.is_sym(x.items[0], "alias") for x in f.items[1:]) and any(L.is_sym(y, "destructure-binding") for x in f.items[1:] for y in L.walk(x)):
+                inplace = True
+    ctx.ob("C09.R5", f"{CORE}::destructure-binding :vector::nested pattern expanded directly after its alias", CORE, vb.line, inplace,
+           "" if inplace else "a nested pattern's bindings are not emitted next to the name bound to its value: source order of shadowing is lost")
+    rest_ok = any(L.head(f) in ("destructure-binding",) and ":binding" in f.text() and "rest" in f.text() for f in L.walk(vb))
+    ctx.ob("C09.R5", f"{CORE}::destructure-binding :vector::the rest pattern is expanded", CORE, vb.line, rest_ok,
+           "" if rest_ok else "a nested pattern after & is never expanded")
+    mb = _method(ctx, "destructure-binding", "map")
+    tr = _children_traversals(mb, "(:other children)")
+    ok = len(tr) == 1
+    ctx.ob("C09.R5", f"{CORE}::destructure-binding :map::nested patterns expanded once ({len(tr)} traversal(s))", CORE, mb.line, ok,
+           "" if ok else f"nested map children are expanded {len(tr)} times")
+    defs = L.top_defs(ctx.lisp(CORE))
+    ck = defs.get("-collect-keyword-args")
+    if ck is None:
+        raise AnalysisError("anchor vanished: core.lpy::-collect-keyword-args")
+    tests = [f for f in L.walk(ck) if L.head(f) == "if" and any(L.head(x) == "map?" for x in L.walk(f.items[1]))]
+    ok = bool(tests) and all(any(L.head(x) in ("odd?", "even?") for x in L.walk(t.items[1])) for t in tests)
+    ctx.ob("C09.R5", f"{CORE}::-collect-keyword-args::a trailing map is recognised only when unpaired", CORE, ck.line, ok,
+           "" if ok else "the last keyword argument is spliced as a trailing map whenever it is a map, even when it is the value of the last key: the pairs no longer add up",
+           witness="((fn [& {:keys [c]}] c) :c {:x 1}) must be {:x 1}")
+
+
 SELFTEST = [
+    {"name": "nested vector patterns expanded a second time at the end (the repaired defect)", "file": CORE, "expect": "C09.R5",
+     "old": "    (concat\n     sequential-args\n     rest-arg)))\n", "new": "    (concat\n     sequential-args\n     rest-arg\n     (->> (:children ddef)\n          (filter #(not= :symbol (:type %)))\n          (mapcat destructure-binding)))))\n"},
+    {"name": "trailing keyword map spliced regardless of parity (the repaired defect)", "file": CORE, "expect": "C09.R5",
+     "old": "      (->> (if (and (odd? (count rest-args-vec)) (map? final-rest-arg))\n", "new": "      (->> (if (map? final-rest-arg)\n"},
+    {"name": "rest pattern used raw (the repaired defect)", "file": CORE, "expect": "C09.R5",
+     "old": "                   (let [rest-ddef (destructure-def (second rest-arg))]\n                     {:starts  (count sequential-args)\n                      :name    (:name rest-ddef)\n                      :binding rest-ddef}))\n",
+     "new": "                   {:starts (count sequential-args)\n                    :name   (second rest-arg)})\n"},
     {"name": ":or changes the key (the repaired defect)", "file": CORE, "expect": "C09.R1",
      "old": "[binding `(get ~fn-arg ~key ~(get ors binding))]", "new": "[binding `(get ~fn-arg (quote ~key) ~(get ors binding))]"},
     {"name": "kw-binding default via or", "file": CORE, "expect": "C09.R2",
